@@ -35,6 +35,13 @@ def correspondence(ctx):
         dis += d
     tot["shifts_per_formula"] = 4
     tot["sample"] = {"program": head_text(forms[-1])}
+    # the time ranges of head formulas are merged by IntervalSet (transformers/head.py): the real class vs the model
+    import props.c06 as c06
+    niv = 0
+    for c, d in par.pmap(c06._ivset_chunk, [(ctx.seed * 149 + j, 100 if ctx.tier == "quick" else 1500) for j in range(ctx.jobs)], ctx.jobs):
+        niv += c
+        dis += d
+    tot["interval_sequences"] = niv
     return tot, dis
 
 def prog_cases(seed, n, tier):
@@ -56,6 +63,16 @@ def prog_cases(seed, n, tier):
         cases.append([("rule", "initial", ("choice", "c", "d"), ()),
                       ("rule", part, ("tel", fa), (("atom", "pos", "c", 0) if part == "initial" else ("init", "pos", "c"),)),
                       ("rule", part, ("tel", fb), (("atom", "pos", "d", 0) if part == "initial" else ("init", "pos", "d"),))])
+    # one atom at several distances, in every order (the ranges of an atom are merged: IntervalSet)
+    A1 = ("a", "a")
+    import itertools
+    for ds in [(1, 4, 2), (3, 0, 1), (0, 2, 1), (4, 1, 3), (2, 4, 3, 0)]:
+        for perm in list(itertools.permutations(ds))[:6]:
+            for op in ("and", "or"):
+                f = ("next", perm[0], r.random() < 0.5, A1) if perm[0] else A1
+                for d in perm[1:]:
+                    f = ("b", op, f, ("next", d, r.random() < 0.5, A1) if d else A1)
+                cases.append(("H", 5, [("rule", "initial", ("tel", f), ())]))
     # one atom of a head formula is a fact and another rule depends on the other atom (D14: the grounder drops the disjunctive
     # domain rule of the formula as soon as one of its atoms is a fact, and with it the knowledge about the other atoms)
     A = lambda x: ("a", x)
@@ -84,7 +101,7 @@ def search(ctx, deep):
     cases = prog_cases(ctx.seed * 43 + 6, n, ctx.tier)
     fails = rules_check.run_search(ctx, cases, H)
     return {"programs": len(cases), "horizons": "0..{}".format(H), "oracle": "telspec tsm (brute-force THT equilibrium models)",
-            "sample": {"program": tl.render_prog(cases[len(cases) // 2])}}, fails
+            "sample": {"program": tl.render_prog([c for c in cases if not isinstance(c, tuple)][0])}}, fails
 
 def replay(obj):
     return oracles.impl_models(obj["text"], obj.get("h", 2))
